@@ -183,7 +183,7 @@ func runC13(c *Ctx, r *Report, tier string) {
 		r.Check(c.term(call.Call.Args[0]) == "Parser.Command(IniParser.parser(P0))" && c.term(call.Call.Args[1]) == "P1", "SECTION", mn, "named sections resolved from the root command", c.ipos(s), "parser.groupByName(name)", "named section resolved by "+trunc(c.term(call.Call.Args[0]), 80))
 	}
 	cgn := c.fname(cg)
-	sub := "idx(Command.commands(P0), (phi{(phi↺ + 1) | -1} + 1))"
+	sub := "idx(Command.commands(P0), phi{(phi↺ + 1) | 0})"
 	prefix := "(Command.Name(" + sub + ") + \".\")"
 	okOwn, okRec, okExact := false, false, false
 	for _, s := range c.instrs(cg, func(in ssa.Instruction) bool { _, ok := in.(*ssa.Call); return ok }) {
@@ -372,7 +372,7 @@ func (c *Ctx) priorityRules(r *Report, rule string, obn *ssa.Function) {
 		r.Fail(rule, c.fname(obn), "matching closure", "", "optionByName does not iterate eachGroup with a closure")
 	} else {
 		cn := c.fname(cl)
-		opt := "idx(Group.options(P0), (phi{(phi↺ + 1) | -1} + 1))"
+		opt := "idx(Group.options(P0), phi{(phi↺ + 1) | 0})"
 		tests := map[int64][]LitMatch{
 			4: {litIs("dyncall(P2; "+opt+", P1)", true), litIs("nonnil(P2)", true)},
 			3: {litIs("eq(P1, StructField.Name(&Option.field("+opt+")))", true)},
